@@ -310,7 +310,14 @@ def rarr_every_element(ctx):
     array_elements_all_processed(ctx.F, ctx.R, "C03.ARR")
 
 
-RULES = [r1_id_and_wire_agree, r2_key_discipline, r3_insert_before_send, r4_completion_consumes, r5_allocator, r6_batch_slots, r7_ids_not_ordered, r8_http_client_id_check, rarr_every_element]
+
+def rcancel_receive_is_cancel_safe(ctx):
+    """the read task never drops a half-received message"""
+    from .common import read_task_receive_is_cancel_safe
+    read_task_receive_is_cancel_safe(ctx, "C03.CANCEL")
+
+
+RULES = [r1_id_and_wire_agree, r2_key_discipline, r3_insert_before_send, r4_completion_consumes, r5_allocator, r6_batch_slots, r7_ids_not_ordered, r8_http_client_id_check, rarr_every_element, rcancel_receive_is_cancel_safe]
 
 LEVEL_TEXT = (
     "Structural necessary conditions of response demultiplexing decided from the type-checked program: the recorded id "
